@@ -155,8 +155,8 @@ def configs(tier):
                 for alg in ("fista", "active_set"):
                     for it in (0, 1, 2):
                         for norm in (0, 1):
-                            if _heavy(shp, R, init) and (q or it > 1 or norm):
-                                continue
+                            if _heavy(shp, R, init) and (q or it > 0 or norm):
+                                continue  # it = 1 exhausts the 25 min budget (measured)
                             if q and init == "svd" and R == 2 and ((it == 2 and norm) or (it == 1 and not norm)):
                                 continue
                             add(f"loop/nn_tucker_hals/{alg}/{_sh(shp)}/R{R}/init_{init}/norm{norm}/it{it}", fn="l_tk_hals", shape=shp, R=R, init=init, it=it, norm=norm, alg=alg)
